@@ -31,6 +31,7 @@ class Solver:
     def __init__(self, timeout_ms=20000):
         self.s = z3.Solver()
         self.s.set('timeout', timeout_ms)
+        self.timeout_ms = timeout_ms
         self.queries = 0
         self.secs = 0.0
         self.unknown = 0
@@ -46,6 +47,17 @@ class Solver:
         r = self.s.check()
         self.secs += time.time() - t
         m = self.s.model() if r == z3.sat else None
+        if r == z3.unknown:
+            # the per-query limit is short (seconds); one retry in a fresh solver with ten times the limit and another seed
+            s2 = z3.Solver()
+            s2.set('timeout', int(min(max(10 * self.timeout_ms, 20000), 120000)))
+            s2.set('random_seed', 7)
+            for a in self.s.assertions():
+                s2.add(a)
+            t = time.time()
+            r = s2.check()
+            self.secs += time.time() - t
+            m = s2.model() if r == z3.sat else None
         self.s.pop()
         if r == z3.unknown:
             self.unknown += 1
